@@ -63,7 +63,7 @@ chk("C31", "MIR: reset-on-dequeue must-pass, interrupt addressing provenance (lo
 
 chk("C13", "syntax-table coverage: diagonal arms of `impl PartialEq for Value_` vs the enum's variants; same-field conjunction shape per arm; != is derived; operator dispatch agreement; identity field (runtime_type or type_name) compared for enum and struct values; CONTEXT-FREE-TYPE (MIR taint: frame type bindings do not flow into built values); DICT-TYPE-ORDER-FREE (a dict's hidden value type comes from a join, another dict or a fixed type)",
     "Coverage clauses the compiler cannot enforce because of the `_ => false` catch-all: every variant has its diagonal arm, each literal-syntax arm compares every value-carrying field of the two sides pairwise, and != is the negation on the same operands. A relation of that shape is an equivalence by induction on values; values are never computed.",
-    "Trusted: syn parse of values.rs/eval.rs; std/rpds element-wise equality. NaN reflexivity is excluded by the property (finite floats).",
+    "Trusted: syn parse of values.rs/eval.rs; std/rpds element-wise equality. NaN reflexivity is excluded by the property (finite floats). One known finding: `-0.0 == 0.0` is True although the two print differently (IEEE equality; recorded, not repaired).",
     "DESIGN.md section 4 C13")
 
 chk("C10", "field-coverage: StackFrame fields (from the type) classified by a reviewed table; each state field reset by pop_to_toplevel on frame 0 on every path (MIR); Abort arm shapes; ABORT-CALLS unconditional (every path through the Command::Abort arm passes pop_to_toplevel); NAMESPACE-WRITERS (who may replace a frame's namespace); BLOCK-SCOPE-ORDER; initial lengths assumed by truncate(k); C06's block discipline rules",
